@@ -290,6 +290,7 @@ class Ctx(Shard):
         rdir = EVID / "replay" / self.prop
         matched = []
         unlisted = []
+        kgroups = OrderedDict()
         if rdir.exists():
             for old in rdir.glob("*.json"):
                 old.unlink()
@@ -298,8 +299,9 @@ class Ctx(Shard):
             if m:
                 nknown += 1
                 matched.append(sig)
-                lines.append("KNOWN-FINDING: property=%s %s %s (x%d)" %
-                             (self.prop, sig, m[1] or v["desc"], v["count"]))
+                g = kgroups.setdefault(m[0], [m[1] or v["desc"], 0, 0])
+                g[1] += 1
+                g[2] += v["count"]
                 continue
             nviol += 1
             unlisted.append(sig)
@@ -312,6 +314,9 @@ class Ctx(Shard):
             if nviol <= 25:
                 lines.append("VIOLATION property=%s replay=%s" % (self.prop, rp))
                 lines.append("  sig=%s :: %s (x%d)" % (sig, v["desc"][:300], v["count"]))
+        for pat, (text, nsig, nev) in kgroups.items():
+            lines.append("KNOWN-FINDING: property=%s %s %s [%d signature(s), %d event(s) this run]" %
+                         (self.prop, pat, text, nsig, nev))
         distinct = len(self.classes)
         cov = dict(evaluations=int(self.evals), distinct_nontrivial=int(distinct),
                    rule=self.rule, samples=self.samples[:12] or ["<none>"],
